@@ -9,21 +9,18 @@
    factory.objects[token] (Element: arity, method)     lookup tbl token  (tbl = Gen/GenOpTable.op_table; en_arity, en_method)
    to_float(token) succeeds / raises ValueError        parse_number token = Some c / None      (see `decimal_number`)
    numpy.float64 / Python float value                  VF x
-   numpy.bool_ value (np.logical_*, np.isclose, |)     VB b
-   a number that is not a boolean but whose value and  VN   — arises only from booleans used as numbers: np.remainder/fmod of
+   numpy.bool_ value (np.logical_and/or/not)           VB b
+   a number that is not a boolean but whose value and  VN   — arises only when a boolean is used as a number: np.remainder/fmod of
      dtype (float64 / float16 / int8) the model does          two booleans (int8), float ufuncs on a boolean (float16), and
      not determine                                            whatever is computed from such values
-   a numpy.bool_ whose value the model does not        VBu  (a comparison or logical operation on a VN)
+   a numpy.bool_ whose value the model does not        VBu  (a logical operation on a VN)
      determine
-   anything, an exception included                     VAny (builtin min/max choosing between a boolean and a non-boolean
-                                                             of undetermined order)
    libm / rounding ufuncs (exp, log, float_power, …)   oracle method a b  (recorded from the implementation by the harness)
    SyntaxError / ValueError / TypeError / RuntimeError Err ESyntax / EValue / EInternal / ERuntime
    (Err ELookup = the MODEL has no answer: an oracle miss or a method/arity combination outside the table.)
 
-   Arrays: NumPy evaluates a formula elementwise; `evaluate_rows` maps the scalar evaluator over the rows.  The one
-   operation that is not elementwise is the Python builtin min/max registered for `min`/`max`: on an operand with more
-   than one element `if b < a` raises ValueError; `bigs` lists the variables bound to such arrays. *)
+   Arrays: NumPy evaluates a formula elementwise (every element method is a ufunc or built from ufuncs, min/max included:
+   np.minimum/np.maximum); `evaluate_rows` maps the scalar evaluator over the rows. *)
 From Coq Require Import ZArith Bool List String Ascii.
 From VF Require Import Num Core ShuntingYard.
 Import ListNotations.
@@ -40,7 +37,7 @@ Definition mem_str (s : string) (l : list string) : bool := existsb (String.eqb 
 
 Section Values.
   Context {T : Type}.
-  Inductive value : Type := VF (x : T) | VB (b : bool) | VN | VBu | VAny.
+  Inductive value : Type := VF (x : T) | VB (b : bool) | VN | VBu.
 End Values.
 Arguments value T : clear implicits.
 
@@ -156,9 +153,11 @@ Section Formula.
     match v with VF x => x | VB b => b2f b | _ => nan end.                      (* used on known values only *)
   Definition known (v : value T) : bool := match v with VF _ | VB _ => true | _ => false end.
   Definition boolish (v : value T) : bool := match v with VB _ | VBu => true | _ => false end.   (* dtype bool *)
-  Definition is_any (v : value T) : bool := match v with VAny => true | _ => false end.
   (* np.isclose(a, b, rtol=0, atol=0, equal_nan=True) *)
   Definition eqnan (a b : T) : bool := eqb a b || (isnan a && isnan b).
+  (* np.minimum / np.maximum on float64: NaN-propagating (unlike Python's builtin min/max); on a tie (+0 / -0) the SECOND operand *)
+  Definition npmin (a b : T) : T := if isnan a then a else if isnan b then b else if ltb a b then a else b.
+  Definition npmax (a b : T) : T := if isnan a then a else if isnan b then b else if ltb b a then a else b.
 
   Definition unary_float_ufuncs : list string :=
     ["np.arccos"; "np.arcsin"; "np.arctan"; "np.ceil"; "np.cos"; "np.cosh"; "np.exp"; "np.floor"; "np.log"; "np.log10";
@@ -168,7 +167,7 @@ Section Formula.
     ["np.logical_not"; "np.negative"; "np.positive"; "np.fabs"; "np.sqrt"] ++ unary_float_ufuncs.
   Definition known_binary : list string :=
     ["np.add"; "np.subtract"; "np.multiply"; "np.true_divide"; "np.float_power"; "np.logical_and"; "np.logical_or";
-     "Op.gt"; "Op.ge"; "Op.eq"; "Op.neq"; "Op.le"; "Op.lt"; "min"; "max"] ++ binary_float_ufuncs.
+     "Op.gt"; "Op.ge"; "Op.eq"; "Op.neq"; "Op.le"; "Op.lt"; "np.minimum"; "np.maximum"] ++ binary_float_ufuncs.
 
   Definition ask (m : string) (a b : T) : result (value T) :=
     match oracle m a b with Some r => Ok (VF r) | None => Err ELookup end.
@@ -180,7 +179,6 @@ Section Formula.
   (* element.method(a) *)
   Definition apply1 (m : string) (a : value T) : result (value T) :=
     if negb (mem_str m known_unary) then Err ELookup
-    else if is_any a then Ok VAny
     else if String.eqb m "np.logical_not" then Ok (if known a then VB (negb (truth a)) else VBu)
     else if boolish a then
       (* np.negative / np.positive have no boolean loop: TypeError; the float ufuncs answer in float16 *)
@@ -198,7 +196,6 @@ Section Formula.
   (* element.method(a, b) *)
   Definition apply2 (m : string) (a b : value T) : result (value T) :=
     if negb (mem_str m known_binary) then Err ELookup
-    else if is_any a || is_any b then Ok VAny
     else
       let x := num a in let y := num b in
       let k := known a && known b in              (* both values determined *)
@@ -214,31 +211,17 @@ Section Formula.
       else if String.eqb m "np.logical_or" then Ok (vb (truth a || truth b))
       else if String.eqb m "Op.gt" then Ok (vf (b2f (ltb y x)))                                        (* scalar(a > b) *)
       else if String.eqb m "Op.lt" then Ok (vf (b2f (ltb x y)))                                        (* scalar(a < b) *)
-      else if String.eqb m "Op.ge" then Ok (vb (leb y x || eqnan x y))                                 (* (a >= b) | isclose: a boolean *)
-      else if String.eqb m "Op.le" then Ok (vb (leb x y || eqnan x y))
-      else if String.eqb m "Op.eq" then Ok (vb (eqnan x y))                                            (* isclose: a boolean *)
-      else if String.eqb m "Op.neq" then Ok (vb (negb (eqnan x y)))
-      else if String.eqb m "min" || String.eqb m "max" then                                            (* Python builtins: an operand itself *)
-        (if k then Ok (if String.eqb m "min" then (if ltb y x then b else a) else (if ltb x y then b else a))
-         else if bb then Ok VBu
-         else if negb (boolish a) && negb (boolish b) then Ok VN
-         else Ok VAny)
+      else if String.eqb m "Op.ge" then Ok (vf (b2f (leb y x || eqnan x y)))                           (* scalar((a >= b) | isclose) *)
+      else if String.eqb m "Op.le" then Ok (vf (b2f (leb x y || eqnan x y)))
+      else if String.eqb m "Op.eq" then Ok (vf (b2f (eqnan x y)))                                      (* scalar(isclose) *)
+      else if String.eqb m "Op.neq" then Ok (vf (b2f (negb (eqnan x y))))
+      else if String.eqb m "np.minimum" then Ok (if bb then vb (truth a && truth b) else vf (npmin x y))   (* bool: logical and *)
+      else if String.eqb m "np.maximum" then Ok (if bb then vb (truth a || truth b) else vf (npmax x y))
       else if k && negb bb then ask m x y                                                              (* remainder / fmod / arctan2 *)
       else Ok VN.                                                                                      (* two booleans: int8 / float16 *)
 
   (* ================= Function.Node.evaluate ================= *)
-  Variable bigs : list string.            (* variables bound to arrays with more than one element *)
   Variable vars : list (string * T).      (* local_variables *)
-
-  Fixpoint has_big (t : fnode T) : bool :=
-    match t with
-    | FConst _ => false
-    | FVar v => mem_str v bigs
-    | FElem0 _ => false
-    | FElem1 _ x => has_big x
-    | FElem2 _ l r => has_big l || has_big r
-    end.
-  Definition is_builtin_minmax (m : string) : bool := String.eqb m "min" || String.eqb m "max".
 
   Fixpoint evaluate (t : fnode T) : result (value T) :=
     match t with
@@ -271,10 +254,7 @@ Section Formula.
         | Some e => match en_arity e with
                     | O => apply0 (en_method e)
                     | 1%nat => do a <- evaluate l; apply1 (en_method e) a
-                    | 2%nat => do a <- evaluate l; do b <- evaluate r;
-                               if is_builtin_minmax (en_method e) && (has_big l || has_big r)
-                               then Err EValue                                (* truth value of an array is ambiguous *)
-                               else apply2 (en_method e) a b
+                    | 2%nat => do a <- evaluate l; do b <- evaluate r; apply2 (en_method e) a b
                     | _ => Ok (VF nan)
                     end
         end
@@ -291,10 +271,10 @@ Section Membership.
     match v with VF x => Some x | VB b => Some (b2f b) | _ => None end.
 
   (* array operands: one row of variable values per element *)
-  Fixpoint evaluate_rows (bigs : list string) (rows : list (list (string * T))) (t : fnode T) : result (list (value T)) :=
+  Fixpoint evaluate_rows (rows : list (list (string * T))) (t : fnode T) : result (list (value T)) :=
     match rows with
     | [] => Ok []
-    | vars :: tl => do v <- evaluate tbl oracle bigs vars t; do vs <- evaluate_rows bigs tl t; Ok (v :: vs)
+    | vars :: tl => do v <- evaluate tbl oracle vars t; do vs <- evaluate_rows tl t; Ok (v :: vs)
     end.
 
   (* for variable in self.engine.variables: engine_variables[variable.name] = variable.value   (inputs, then outputs) *)
@@ -303,7 +283,7 @@ Section Membership.
 
   (* Function.membership(x); term_vars = self.variables (unique keys), root = self.root *)
   Definition membership (root : option (fnode T)) (term_vars : list (string * T)) (eng : option (engine T))
-             (bigs : list string) (x : T) : result (value T) :=
+             (x : T) : result (value T) :=
     if mem_str "x" (map fst term_vars) then Err EValue                         (* 'x' is reserved: in self.variables *)
     else
       let ev := match eng with Some e => engine_variable_values e | None => [] end in
@@ -313,12 +293,12 @@ Section Membership.
         if existsb (fun k => mem_str k (map fst ev')) (map fst term_vars) then Err EValue   (* overrides *)
         else match root with
              | None => Err ERuntime                                            (* function is not loaded *)
-             | Some t => evaluate tbl oracle bigs (term_vars ++ ev') t
+             | Some t => evaluate tbl oracle (term_vars ++ ev') t
              end.
 
-  Definition function_membership (tm : term T) (eng : option (engine T)) (bigs : list string) (x : T) : result (value T) :=
+  Definition function_membership (tm : term T) (eng : option (engine T)) (x : T) : result (value T) :=
     match tm with
-    | TFunction _ root term_vars => membership root term_vars eng bigs x
+    | TFunction _ root term_vars => membership root term_vars eng x
     | _ => Err ELookup
     end.
 End Membership.
